@@ -454,6 +454,8 @@ def eval_charge(case):
         gerr = 'AssertionError'
     except ValueError as e:
         gerr = 'ValueError:shape' if 'shape' in str(e) else 'ValueError:leg'
+    if gerr is not None and mode in ('none', 'one', 'persite') and psi.bc == 'finite':
+        oracle.append(('C07.ext.charge.gauge-raises', 'gauge_total_charge(%r) on a %s MPS raises %s' % (gj, psi.bc, gerr)))
     if gerr == 'AssertionError':
         oracle.append(('C07.ext.charge.gauge-assert', 'the assert in gauge_total_charge fired for %r' % (gj,)))
     if gerr is None:
@@ -644,7 +646,7 @@ def eval_theta(case):
     if rnd.random() < 0.5:
         k = rnd.randrange(L)
         psi.form[k] = None
-    queries, res = [], []
+    queries, res, oracle = [], [], []
     for _ in range(14):
         i = rnd.randint(-L - 2, 2 * L + 1)
         n = rnd.choice([1, 1, 2, 2, 3, 0, -1, L, L + 1])
@@ -657,9 +659,15 @@ def eval_theta(case):
                  else 'ValueError:n' if 'larger than 0' in m else 'ValueError:?' + m[:40])
         queries.append([i, n])
         res.append(r)
+        # documented behaviour, stated directly: n >= 1 sites, all inside the chain and canonical
+        fin = bc != 'infinite'
+        window_ok = all(((-L <= j < L) if fin else True) and psi.form[j % L] is not None for j in range(i, i + max(n, 0)))
+        if (r is None) != (n >= 1 and window_ok):
+            oracle.append(('C07.ext.theta.guard', 'get_theta(%d, %d) on bc=%s L=%d forms=%r: %s' % (
+                i, n, bc, L, psi.form, 'returned a tensor' if r is None else 'raised ' + r)))
     line = dict(op='thetaGuard', L=L, bc=bc, forms=[mc.form_half(f) for f in psi.form], queries=queries)
     expects = [('theta', dict(res=res, queries=queries, bc=bc, forms=line['forms']), 'C07.ext.glue.get_theta-guards')]
-    return dict(oracle=[], lines=[line], compare=_mk_compare(expects), nontrivial=True,
+    return dict(oracle=oracle[:1], lines=[line], compare=_mk_compare(expects), nontrivial=True,
                 hist=['ext.theta.bc=' + bc, 'ext.theta.L=%d' % L])
 
 
@@ -698,6 +706,12 @@ def eval_entropy(case):
             s2 = float(psi.entanglement_entropy(n=2, bonds=[ib])[0])
             s3 = float(psi.entanglement_entropy(n=3, bonds=ib)[0])
             res.append([float(np.exp(-s2)), float(np.exp(-2 * s3))])
+            if 0 <= ib <= L or psi.bc == 'infinite':
+                # the documented cut: singular values stored on bond ib (modulo L on an infinite chain)
+                S = psi._S[ib % L if psi.bc == 'infinite' else ib]
+                if abs(np.sum(np.asarray(S) ** 4) - res[-1][0]) > 1e-9:
+                    oracle.append(('C07.ext.entropy.cut-uses-other-bond', 'entanglement_entropy(n=2, bonds=[%d]) on bc=%s '
+                                   'L=%d is not the Renyi entropy of the stored S of that bond' % (ib, psi.bc, L)))
         except ValueError:
             res.append(None)
     default = psi.entanglement_entropy(n=2)
@@ -715,7 +729,7 @@ def eval_entropy(case):
     line = dict(op='entropy', bc=psi.bc, L=L, bonds=bonds, ibs=ibs, ns=[2, 3])
     expects = [('entropy', dict(res=res, ibs=ibs, default=[float(np.exp(-x)) for x in default], bc=psi.bc, L=L),
                 'C07.ext.glue.entropy-bonds')]
-    return dict(oracle=oracle, lines=[line], compare=_mk_compare(expects), nontrivial=True,
+    return dict(oracle=oracle[:2], lines=[line], compare=_mk_compare(expects), nontrivial=True,
                 hist=['ext.entropy.bc=' + psi.bc, 'ext.entropy.L=%d' % L])
 
 
